@@ -8,14 +8,16 @@ polynomials with integer coefficients over the call argument and `env`.  Leaves 
 of their entries (`Val.total`) and written as constant-filled arrays, so every value on the Python
 side is a small integer held in float32 (exact).
 
-  param n shape k        `w = self.param(n, const k, shape)`;              pushes Σ w
+  param n shape k        `w = self.param(n, const k, shape)`, shape = literal dims and `x.shape[-1:]`; pushes Σ w
   var c n shape e        `v = self.variable(c, n, lambda: full(shape, e))`; pushes Σ v.value
   get c n                `self.get_variable(c, n, None)`;                   pushes Σ value, 0 when absent
-  put c n e              `self.put_variable(c, n, full((), e))`
+  put c rel n e          `self.put_variable(c, n, full((), e))`; with `rel = r₀ :: rs` a dict-valued write over the
+                         subtree of a submodule: `self.put_variable(c, r₀, {rs…: {n: full((), e)}})`
   sow c n e              `self.sow(c, n, e)` (default tuple reduce)
   perturb c n e          `self.perturb(n, e, collection=c)`;                pushes Σ result
   child cls name? body   construct a submodule (explicit or automatic name); it becomes child slot #k
-  call k e               call child #k (again) with argument e;             pushes its return value
+  call k e w?            call child #k (again) with argument e — a scalar, or `full((w,), e)` when a width is
+                         given; parameter shapes of the child may contain `x.shape[-1:]`;  pushes its return value
   bind e                 `tmp = e`;                                         pushes e
   ret e                  sets the return value (default 0)
   seq a b, skip
@@ -54,20 +56,50 @@ inductive Expr where
   | mul (a b : Expr)
   deriving DecidableEq, Repr, Inhabited
 
+/-- one piece of a parameter's shape tuple: a literal dimension, or `x.shape[-1:]` — the last axis of
+the call argument (an empty slice when the argument is a scalar) -/
+inductive Dim where
+  | lit (k : Nat)
+  | argLast
+  deriving DecidableEq, Repr, Inhabited
+
 inductive SProg where
   | skip
   | seq (a b : SProg)
   | bind (e : Expr)
   | ret (e : Expr)
-  | param (n : String) (shape : List Nat) (init : Int)
+  | param (n : String) (shape : List Dim) (init : Int)
   | var (col n : String) (shape : List Nat) (init : Expr)
   | get (col n : String)
-  | put (col n : String) (e : Expr)
+  | put (col : String) (rel : Path) (n : String) (e : Expr)
   | sow (col n : String) (e : Expr)
   | perturb (col n : String) (e : Expr)
   | child (cls : String) (name : Option String) (body : SProg)
-  | call (slot : Nat) (a : Expr)
+  | call (slot : Nat) (a : Expr) (w : Option Nat)
   deriving DecidableEq, Repr, Inhabited
+
+/-- the shape tuple a parameter declaration denotes; an `argLast` that no call bound to a width is
+the empty slice of a scalar argument's shape -/
+def resolveDims : List Dim → List Nat
+  | [] => []
+  | .lit k :: rest => k :: resolveDims rest
+  | .argLast :: rest => resolveDims rest
+
+def bindDims (w : Nat) : List Dim → List Dim
+  | [] => []
+  | .lit k :: rest => .lit k :: bindDims w rest
+  | .argLast :: rest => .lit w :: bindDims w rest
+
+/-- the body of a module as it runs when called with an argument of shape `(w,)`: `x.shape[-1:]` in the
+parameter declarations of *this* body becomes `(w,)` (bodies of its children are bound when they are called) -/
+def bindW (w : Nat) : SProg → SProg
+  | .seq a b => .seq (bindW w a) (bindW w b)
+  | .param n shape init => .param n (bindDims w shape) init
+  | p => p
+
+def bindArg : Option Nat → SProg → SProg
+  | some w, p => bindW w p
+  | none, p => p
 
 /-- how automatic child names are produced -/
 inductive Style where
@@ -215,7 +247,7 @@ def eval (cfg : Cfg) : Nat → SProg → Path → Int → Local → Op Local
        | .ok v => (.ok { l with out := v }, s)
        | .error err => (.error err, s))
     | .param n shape init =>
-      (match scopeParam π n shape init l.res s with
+      (match scopeParam π n (resolveDims shape) init l.res s with
        | (.ok (v, r), s1) => (.ok { push l v.total with res := r }, s1)
        | (.error e, s1) => (.error e, s1))
     | .var col n shape init =>
@@ -232,11 +264,13 @@ def eval (cfg : Cfg) : Nat → SProg → Path → Int → Local → Op Local
       (match getVar s π col n with
        | some v => (.ok (push l v.total), s)
        | none => (.ok (push l 0), s))
-    | .put col n e =>
+    | .put col rel n e =>
       (match evalE x l.env e with
        | .error err => (.error err, s)
        | .ok v =>
-         match putVar π col n (.tensor [] [v]) s with
+         -- `put_variable(col, n, leaf)` for `rel = []`; `put_variable(col, rel₀, {rel₁: … {n: leaf}})` otherwise:
+         -- the recursive merge of `put_variable` sets exactly this leaf and keeps every other entry
+         match putVar (π ++ rel) col n (.tensor [] [v]) s with
          | (.ok (), s1) => (.ok l, s1)
          | (.error err, s1) => (.error err, s1))
     | .sow col n e =>
@@ -262,14 +296,14 @@ def eval (cfg : Cfg) : Nat → SProg → Path → Int → Local → Op Local
          match reserve l.res nm none with
          | .error err => (.error err, s)
          | .ok r => (.ok { l with res := r, cursors := cs, kids := l.kids ++ [⟨nm, body⟩] }, s))
-    | .call slot a =>
+    | .call slot a w =>
       (match l.kids[slot]? with
        | none => (.error .badSlot, s)
        | some k =>
          match evalE x l.env a with
          | .error err => (.error err, s)
          | .ok av =>
-           match eval cfg fuel k.body (π ++ [k.name]) av {} s with
+           match eval cfg fuel (bindArg w k.body) (π ++ [k.name]) av {} s with
            | (.error err, s1) => (.error err, s1)
            | (.ok lk, s1) =>
              match finishCall cfg (π ++ [k.name]) lk s1 with
@@ -330,7 +364,7 @@ initialisation and no `get_variable` (which could observe a variable before it i
 def declOnly : SProg → Bool
   | .seq a b => declOnly a && declOnly b
   | .child _ _ b => declOnly b
-  | .put _ _ _ => false
+  | .put _ _ _ _ => false
   | .sow _ _ _ => false
   | .perturb _ _ _ => false
   | .get _ _ => false
@@ -350,7 +384,7 @@ def otherCols : SProg → List String
   | .param _ _ _ => ["params"]
   | .var c _ _ _ => [c]
   | .get c _ => [c]
-  | .put c _ _ => [c]
+  | .put c _ _ _ => [c]
   | .perturb c _ _ => [c]
   | _ => []
 
